@@ -1149,14 +1149,14 @@ static int64_t default_runs(const std::string& prop, const std::string& tier)
 }
 
 #if defined(VERIF_ASAN)
-extern "C" __attribute__((used)) const char* __asan_default_options() { return "detect_leaks=0:exitcode=77:allocator_may_return_null=1:detect_stack_use_after_return=0"; }
+extern "C" __attribute__((used)) const char* __asan_default_options() { return "detect_leaks=0:exitcode=77:allocator_may_return_null=1:detect_stack_use_after_return=0:malloc_fill_byte=0:max_malloc_fill_size=1073741824"; }
 extern "C" __attribute__((used)) const char* __ubsan_default_options() { return "print_stacktrace=1:halt_on_error=1"; }
 #endif
 
 // Every heap object starts zero-filled (except in the valgrind build, where memcheck must keep seeing uninitialised
 // memory): a member the engine forgets to initialise then reads as zero in every process, so runs stay a pure function
 // of the seed and such a defect shows up as a reproducible violation instead of a flaky one.
-#if !defined(VERIF_VG) && !defined(VERIF_TSAN)  // (the TSan runtime brings its own operator new)
+#if !defined(VERIF_VG) && !defined(VERIF_TSAN) && !defined(VERIF_ASAN)  // (the sanitizer runtimes bring their own operator new; ASan zero-fills through malloc_fill_byte)
 #include <new>
 void* operator new(std::size_t n)
 {
@@ -1172,6 +1172,20 @@ void* operator new[](std::size_t n)
     std::memset(p, 0, n);
     return p;
 }
+void* operator new(std::size_t n, const std::nothrow_t&) noexcept
+{
+    void* p = std::malloc(n ? n : 1);
+    if (p) std::memset(p, 0, n);
+    return p;
+}
+void* operator new[](std::size_t n, const std::nothrow_t&) noexcept
+{
+    void* p = std::malloc(n ? n : 1);
+    if (p) std::memset(p, 0, n);
+    return p;
+}
+void operator delete(void* p, const std::nothrow_t&) noexcept { std::free(p); }
+void operator delete[](void* p, const std::nothrow_t&) noexcept { std::free(p); }
 void operator delete(void* p) noexcept { std::free(p); }
 void operator delete[](void* p) noexcept { std::free(p); }
 void operator delete(void* p, std::size_t) noexcept { std::free(p); }
